@@ -126,7 +126,12 @@ func vfRunSR(t *testing.T, sc *vfSRScript, out *vfWriter) {
 	payload := make([]byte, 65536)
 	base := sc.wireTs(0)
 	epochNTP := vfSREpoch.Unix() + 2208988800
+	var failRTP atomic.Bool // the next writer refuses the packet (a packet WRITTEN on the stream counts all the same)
 	downstream := interceptor.RTPWriterFunc(func(_ *rtp.Header, p []byte, _ interceptor.Attributes) (int, error) {
+		if failRTP.Load() {
+			return 0, errVfSRInjected
+		}
+
 		return len(p), nil
 	})
 	for _, st := range sc.Steps {
@@ -162,7 +167,13 @@ func vfRunSR(t *testing.T, sc *vfSRScript, out *vfWriter) {
 						hdr.PaddingSize = byte(st.Pad) //nolint:gosec // < 256
 					}
 				}
-				if n, err := b.writer.Write(hdr, payload[:st.Len], interceptor.Attributes{}); err != nil || n != st.Len {
+				failRTP.Store(st.WFail)
+				n, err := b.writer.Write(hdr, payload[:st.Len], interceptor.Attributes{})
+				failRTP.Store(false)
+				if st.WFail && !errors.Is(err, errVfSRInjected) {
+					t.Fatalf("VERIF-INFRA the injected write failure was not passed up: n=%d err=%v", n, err)
+				}
+				if !st.WFail && (err != nil || n != st.Len) {
 					t.Fatalf("VERIF-INFRA write: n=%d err=%v", n, err)
 				}
 			}
